@@ -191,8 +191,8 @@ struct SinkBuf : std::streambuf
 };
 
 static const char* STREAMS[] = { "fresh", "prior1", "prior79", "prior200", "prior79+nl", "prior200+nl", "nonseekable",
-                                 "fresh-after-a-parse", "fresh-from-the-moved-parser" };
-static const int NSTREAMS = 9;
+                                 "fresh-after-a-parse", "fresh-from-the-moved-parser", "fresh-after-a-parse-that-took-values-from-the-environment" };
+static const int NSTREAMS = 10;
 
 static std::string usage_to(nitro::options::parser& p, int stream)
 {
@@ -250,6 +250,26 @@ static std::pair<std::string, std::string> usage_pair(const UDecl& d, int stream
         catch (std::exception&)
         {
         }
+        return { fresh, usage_to(p, 0) };
+    }
+    if (stream == 9)
+    {
+        // as 7, but every environment variable the declaration binds is set to something other than the declared default
+        // while the parser parses; the usage text describes the declaration, not the outcome of a parse
+        for (auto& i : d.items)
+            if (!i.env.empty())
+                setenv(i.env.c_str(), i.kind == 't' ? (i.tdef ? "0" : "1") : i.kind == 'm' ? "e1;e2" : "from-the-environment", 1);
+        const char* argv[] = { "prog" };
+        try
+        {
+            p.parse(1, argv);
+        }
+        catch (std::exception&)
+        {
+        }
+        for (auto& i : d.items)
+            if (!i.env.empty())
+                unsetenv(i.env.c_str());
         return { fresh, usage_to(p, 0) };
     }
     if (stream == 8)
@@ -691,7 +711,7 @@ int main(int argc, char** argv)
                     for (int ln = 0; ln < 2; ln++)
                         for (int shrt = 0; shrt < 2; shrt++)
                             for (int env = 0; env < 2; env++)
-                                for (int def = 0; def < 2; def++)
+                                for (int def = 0; def < 3; def++) // none / plain words / texts containing `{}` (a placeholder to the formatter)
                                     for (int x = 0; x < 2; x++) // metavar (o, m) / reversible (t)
                                         for (size_t di = 0; di < descs.size(); di++)
                                         {
@@ -711,12 +731,12 @@ int main(int argc, char** argv)
                                             if (def)
                                             {
                                                 if (kind == 't')
-                                                    i.tdef = 1;
+                                                    i.tdef = def;
                                                 else
                                                 {
                                                     i.has_def = true;
-                                                    i.def = "dflt";
-                                                    i.mdef = { "one", "two" };
+                                                    i.def = def == 1 ? "dflt" : "trace-{}.otf2";
+                                                    i.mdef = def == 1 ? std::vector<std::string>{ "one", "two" } : std::vector<std::string>{ "{}", "{a=b}" };
                                                 }
                                             }
                                             if (x)
@@ -794,7 +814,7 @@ int main(int argc, char** argv)
     auto rep = sh.run();
     rep.notes["rule"] = "part A: one item over the full product kind x name length x short x env x default x metavar/reversible x 11 "
                         "descriptions (words of 38..60 chars) x 2 application names x positionals; part B: 2-3 items over 6 variants x name "
-                        "permutations x group assignments x group pre-creation orders; each on 7 streams; non-trivial = distinct "
+                        "permutations x group assignments x group pre-creation orders; each on 10 streams (incl. after a parse, after a parse that took values from the environment, from a moved parser); non-trivial = distinct "
                         "declarations with several items, a long name or a description that wraps";
     mc::write_out(a, rep);
     return 0;
